@@ -41,32 +41,47 @@ func VerifH20a() {
 	nd.Assert(len(s.RootDirs) == nroots, "H20a.roots-untouched")
 }
 
+// A literal an environment variable may hold, with what the documented format says about it
+// (decimal digits for counts and ports - a sign is accepted for the int-typed ones -, a Go duration
+// for periods); stated here independently of the parsing code.
+type verifLit struct {
+	s   string
+	ok  bool
+	num uint64 // expected value for numeric/duration settings
+}
+
 type verifSetting struct {
-	env       string
-	good, bad string // well-formed and malformed literal ("" = the setting has no malformed form)
+	env  string
+	lits []verifLit
 }
 
 var verifSettings = []verifSetting{
-	{envPort, "9999", "80x"},
-	{envDbPath, "/env/db", ""},
-	{envDirCount, "12345", "-1"},
-	{envRootDirs, "ea;eb", ""},
-	{envGCPeriod, "90s", "90"},
-	{envNumWorkers, "3", "x"},
-	{envSendDuration, "5ms", "ms"},
+	{envPort, []verifLit{{"9999", true, 9999}, {"80x", false, 0}, {"0080", true, 80}, {"0x50", false, 0}, {"8_080", false, 0}, {" 80", false, 0}}},
+	{envDbPath, []verifLit{{"/env/db", true, 0}}},
+	{envDirCount, []verifLit{{"12345", true, 12345}, {"-1", false, 0}, {"0500", true, 500}, {"1_000", false, 0}, {"0x200", false, 0}, {"0b1100100", false, 0},
+		{"18446744073709551615", true, 18446744073709551615}, {"18446744073709551616", false, 0}, {"+5", false, 0}, {"1e3", false, 0}}},
+	{envRootDirs, []verifLit{{"ea;eb", true, 0}}},
+	{envGCPeriod, []verifLit{{"90s", true, uint64(90 * time.Second)}, {"90", false, 0}, {"1h30m", true, uint64(90 * time.Minute)}, {"5 ms", false, 0}, {"1.5s", true, uint64(1500 * time.Millisecond)}}},
+	{envNumWorkers, []verifLit{{"3", true, 3}, {"x", false, 0}, {"007", true, 7}, {"0x7", false, 0}, {"3.0", false, 0}}},
+	{envSendDuration, []verifLit{{"5ms", true, uint64(5 * time.Millisecond)}, {"ms", false, 0}, {"2us", true, uint64(2 * time.Microsecond)}}},
 }
 
-// state of one variable: 0 absent, 1 set but empty, 2 well-formed, 3 malformed
+// state of one variable: 0 absent, 1 set but empty, 2+i = literal i
 func verifEnvValue(i, st int) (string, bool) {
-	switch st {
-	case 1:
+	switch {
+	case st == 0:
+		return "", false
+	case st == 1:
 		return "", true
-	case 2:
-		return verifSettings[i].good, true
-	case 3:
-		return verifSettings[i].bad, true
 	}
-	return "", false
+	return verifSettings[i].lits[st-2].s, true
+}
+
+func verifLitOf(i, st int) (verifLit, bool) {
+	if st < 2 {
+		return verifLit{}, false
+	}
+	return verifSettings[i].lits[st-2], true
 }
 
 // VerifH20b: precedence default < file < environment and error reporting, through the real
@@ -74,26 +89,23 @@ func verifEnvValue(i, st int) (string, bool) {
 func VerifH20b() {
 	states := make([]int, len(verifSettings))
 	f1 := nd.Choice("focus1", len(verifSettings))
-	states[f1] = nd.Choice("state1", 4)
+	states[f1] = nd.Choice("state1", 2+len(verifSettings[f1].lits))
 	if nd.Tier() == 1 {
 		f2 := nd.Choice("focus2", len(verifSettings))
 		if f2 != f1 {
-			states[f2] = nd.Choice("state2", 4)
+			states[f2] = nd.Choice("state2", 2+len(verifSettings[f2].lits))
 		}
 	}
 	if nd.Choice("others", 2) == 1 {
 		for i := range states {
 			if i != f1 && states[i] == 0 {
-				states[i] = 2
+				states[i] = 2 // the first literal of every setting is well-formed
 			}
 		}
 	}
 	malformed := false
 	for i, st := range states {
-		if st == 3 {
-			if verifSettings[i].bad == "" {
-				return // this setting has no malformed form
-			}
+		if l, set := verifLitOf(i, st); set && !l.ok {
 			malformed = true
 		}
 	}
@@ -145,31 +157,32 @@ func VerifH20b() {
 		return
 	}
 	nd.Assert(err == nil, "H20b.no-error")
-	fromEnv := func(i int) bool { return states[i] == 2 }
+	fromEnv := func(i int) bool { _, set := verifLitOf(i, states[i]); return set }
+	envNum := func(i int) uint64 { l, _ := verifLitOf(i, states[i]); return l.num }
 	// numeric / duration settings
 	expPort := nd.IteU64(nd.And(inFile, pPort), vPort, defaultPort)
 	if fromEnv(0) {
-		expPort = 9999
+		expPort = envNum(0)
 	}
 	nd.Assert(uint64(got.Port) == expPort, "H20b.port")
 	expDir := nd.IteU64(nd.And(inFile, pDir), vDir, defaultDirCount)
 	if fromEnv(2) {
-		expDir = 12345
+		expDir = envNum(2)
 	}
 	nd.Assert(got.Storage.MaxDirCount == expDir, "H20b.maxDirCount")
 	expGC := nd.IteU64(nd.And(inFile, pGC), vGC, uint64(defaultGCPeriod))
 	if fromEnv(4) {
-		expGC = uint64(90 * time.Second)
+		expGC = envNum(4)
 	}
 	nd.Assert(uint64(got.Storage.GCPeriod) == expGC, "H20b.gcPeriod")
 	expNW := nd.IteU64(nd.And(inFile, pNW), vNW, uint64(runtime.GOMAXPROCS(0)))
 	if fromEnv(5) {
-		expNW = 3
+		expNW = envNum(5)
 	}
 	nd.Assert(uint64(got.WPool.NumWorkers) == expNW, "H20b.numWorkers")
 	expSD := nd.IteU64(nd.And(inFile, pSD), vSD, uint64(defaultSendDuration))
 	if fromEnv(6) {
-		expSD = uint64(5 * time.Millisecond)
+		expSD = envNum(6)
 	}
 	nd.Assert(uint64(got.WPool.SendDuration) == expSD, "H20b.sendDuration")
 	// string settings
